@@ -198,6 +198,7 @@ def check(hyps, goal, rlimit=None, want_model=True, use_cvc5=True, strings=False
             ag = abstract_div(goal, cache)
             s0 = z3.Solver()
             s0.set("rlimit", (rlimit or RLIMIT_QUICK) // 4)
+            s0.set("timeout", int(os.environ.get("PYVC_TIMEOUT_MS", "120000")) // 4)
             for h in ah:
                 s0.add(h)
             s0.add(z3.Not(ag))
@@ -213,6 +214,9 @@ def check(hyps, goal, rlimit=None, want_model=True, use_cvc5=True, strings=False
             pass
     s = z3.Solver()
     s.set("rlimit", rlimit or RLIMIT_QUICK)
+    # a wall-clock cap as well: some non-linear queries burn little `rlimit` per second (a changed body with numpy.isclose took
+    # minutes per VC); an obligation that needs longer than this is reported undecided
+    s.set("timeout", int(os.environ.get("PYVC_TIMEOUT_MS", "120000")))
     if seed:
         s.set("random_seed", seed)
     for h in hyps:
